@@ -79,6 +79,67 @@ def history (j : Json) : Except String Json := do
                ("count", jnat (Generate.torrentPieces sizes.sum L)),
                ("hyp", jbool (L > 0 && sizes.sum > 0 && GenHistory.sizesKept (files0.map List.length) ops))]
 
+/-! ### histories with edits of the metainfo (Model/GenHistory.lean, second part) -/
+
+/-- meta: {L, files: [[path id, length], …], name, listId} -/
+def parseMeta (j : Json) : Except String GenHistory.Meta := do
+  let L ← getNat j "L"
+  let files ← (← getArr j "files").mapM fun x => do
+    let a ← x.getArr?
+    if h : a.size = 2 then return ({ path := (← a[0].getNat?), length := (← a[1].getNat?) } : GenHistory.Entry)
+    else throw "files entry must be a pair"
+  let name := (getOptNat j "name").getD 0
+  let listId := (getOptNat j "listId").getD 0
+  return { L := L, files := files, name := name, listId := listId }
+
+/-- op: ["replace", p, v, size] | ["rewrite", p, v, size] | ["create", p, v, size] (p = the id the new
+    path gets; must be the number of paths so far) | ["new"] | ["touch", s, p] | ["close", s] |
+    ["meta", k, meta] | ["newtor", meta] | ["get", k] | ["gen", k] -/
+def parseMOp (x : Json) : Except String (GenHistory.MOp Nat) := do
+  let a ← x.getArr?
+  let tag ← (a[0]?.getD Json.null).getStr?
+  let n (i : Nat) : Except String Nat := (a[i]?.getD Json.null).getNat?
+  match tag with
+  | "replace" => do return .disk (.replace (← n 1) (verFile (← n 2) (← n 1) (← n 3)))
+  | "rewrite" => do return .disk (.rewrite (← n 1) (verFile (← n 2) (← n 1) (← n 3)))
+  | "create" => do return .create (verFile (← n 2) (← n 1) (← n 3))
+  | "new" => return .disk .newStream
+  | "touch" => do return .disk (.touch (← n 1) (← n 2))
+  | "close" => do return .disk (.close (← n 1))
+  | "meta" => do return .setMeta (← n 1) (← parseMeta (a[2]?.getD Json.null))
+  | "newtor" => do return .newTor (← parseMeta (a[1]?.getD Json.null))
+  | "get" => do return .get (← n 1)
+  | "gen" => do return .generate (← n 1)
+  | _ => throw s!"bad history op {tag}"
+
+def resJson : GenHistory.Res (List Nat) → Json
+  | .out o => outcomeJson o
+  | .failed => jobj [("kind", "failed")]
+
+def fpOf (kind : String) : GenHistory.Meta → List Nat :=
+  match kind with
+  | "listId" => fun m => [m.listId]
+  | "paths" => fun m => m.files.map (·.path)
+  | _ => GenHistory.fpSeed
+
+/-- op `c01.mhistory` : {cap, sizes (paths 0.. at version 0), metas, ops, memo?: "seed"|"listId"|"paths"}
+    ↦ for every "gen" the model's result (`runHistM`, digest = the piece itself) and whether the
+    sequence equals the specification (`specHistM`) -/
+def mhistory (j : Json) : Except String Json := do
+  let cap ← getNat j "cap"
+  let sizes ← getNats j "sizes"
+  let metas ← (← getArr j "metas").mapM parseMeta
+  let ops ← (← getArr j "ops").mapM parseMOp
+  let memo := (getStr j "memo").toOption
+  let files0 := sizes.zipIdx.map fun (sz, i) => verFile 0 i sz
+  let model := GenHistory.runHistM memo.isSome (fpOf (memo.getD "")) (fun p => p) cap
+    (GenHistory.MWorld.init files0 metas) ops
+  let spec := GenHistory.specHistM (fun p => p) metas files0 ops
+  return jobj [("model", jarr (model.map resJson)),
+               ("specEq", jbool (model == spec)),
+               ("spec", if model == spec then Json.null else jarr (spec.map resJson)),
+               ("hyp", jbool (GenHistory.metasOk metas ops))]
+
 /-! ### schedules with hasher faults (Model/PipelineHF.lean) -/
 
 open Torf.Pipeline Torf.PipelineHF in
@@ -156,6 +217,7 @@ def handle (op : String) (j : Json) : Except String Json :=
   | "c01.iter" => iter j
   | "c01.collect" => collect j
   | "c01.history" => history j
+  | "c01.mhistory" => mhistory j
   | "c01.replayx" => replayx j
   | _ => throw s!"unknown op {op}"
 
